@@ -318,13 +318,13 @@ PROPS["C01"] = {
 }
 
 PROPS["C02"] = {
-    "modules": ["OxiaVerif.Props.C02"],
+    "modules": ["OxiaVerif.Props.C02", "OxiaVerif.Props.ReplSafety"],
     "facts": ["becomeLeaderOnlyFromFencedSameTerm", "trackerCommitsAtRequiredAcks", "leaderLiveUsesWrapperCallbackAndEntryArgs", "writeHoldsAppendLockAcrossAllocAndAppend",
               "cursorStartsAtTruncatedHead", "versionIdPersistedAfterApply", "selectNewLeaderTakesMaxTermThenOffset"],
     "trusted_base": REPLTRUST + ["the single-copy semantics of the operations themselves (conditional puts, deletes, range deletes, reads) is M-Db's (C12, C13, C15); exactly-once application is C07, order and own-response C08"],
     "assumptions": ["linearizability is reduced to: the log order is the sequential history, effects are applied in log order exactly once, a read shows a committed prefix, and what has been shown stays a prefix of what later leaders show; concurrent client histories with overlapping operations are not generated as such (writes are issued one at a time per script)"],
     "rule": PRULE + " Oracle: the sequence of writes a read shows is extended, never changed, by every later read on any leader (no rolled-back data), and never goes beyond the commit offset.",
-    "level_text": "Machine-checked proof (Lean 4), partial: what a read shows is a prefix of the leader's log bounded by the quorum commit offset, and on one leader a later commit offset only extends it. The cross-leader part of the property is FALSE of the model and of the code for entries that a leader re-commits from older terms: C02_recommitted_entry_rolled_back is the kernel-checked history (known finding D-40), reproduced on the implementation. Tied to the code by seven facts and by differential runs.",
+    "level_text": "Machine-checked proof (Lean 4), partial: what a read shows is a prefix of the leader's log bounded by the quorum commit offset, and on one leader a later commit offset only extends it. Across leaders (A-Repl, every reachable state, DESIGN.md 10.7): the whole prefix up to an own-term entry that a majority has acknowledged is the same in the log of every later leader (acknowledged_prefix_never_rolled_back) - a read that shows nothing beyond such an offset is never rolled back. The cross-leader part of the property is FALSE of the model and of the code for entries that a leader re-commits from older terms: C02_recommitted_entry_rolled_back is the kernel-checked history (known finding D-40), reproduced on the implementation. Tied to the code by seven facts and by differential runs.",
     "level_note": "PARTIAL proof; the full statement is refuted by D-40 (read-visible, quorum-committed data of an older term rolled back by the next election).",
     "technique": "Lean 4 proof (partial) with a kernel-checked counterexample + regenerated facts + differential correspondence on real controllers",
     "design_ref": "DESIGN.md section 6 C02",
